@@ -303,6 +303,17 @@ def run_registry(R):
                 now = {k_: (v.id, v.entry_point, dict(v.kwargs)) for k_, v in reg._REGISTRY.items()}
                 if dup and (not raised or now != snap):
                     bad.append({"class": label, "ids": [a, b], "raised": raised, "registry_changed": now != snap})
+                if dup:
+                    # ... also when the second registration repeats the SAME entry point and arguments (module reloaded, copy/paste):
+                    # an existing id is refused whatever is being registered under it
+                    try:
+                        reg.register(b, "checks.C18:Dummy", kwargs={"k": 1})
+                        raised2 = False
+                    except ValueError:
+                        raised2 = True
+                    now2 = {k_: (v.id, v.entry_point, dict(v.kwargs)) for k_, v in reg._REGISTRY.items()}
+                    if not raised2 or now2 != snap:
+                        bad.append({"class": label + " (same entry point and kwargs)", "ids": [a, b], "raised": raised2, "registry_changed": now2 != snap})
                 if not dup and (raised or len(now) != 2 or any(now.get(k_) != v for k_, v in snap.items())):
                     bad.append({"class": label, "ids": [a, b], "raised": raised, "registry": list(now)})
                 if not dup and not raised:
